@@ -1025,7 +1025,7 @@ class StructuredTypeUnmarshaller(AbstractUnmarshaller[_ST]):
         - [`typelib.serdes.itervalues`][]
     """
 
-    __slots__ = ("fields_by_var",)
+    __slots__ = ("fields_by_var", "required")
 
     def __init__(self, t: type[_ST], context: ContextT, *, var: str | None = None):
         """Constructor.
@@ -1037,6 +1037,8 @@ class StructuredTypeUnmarshaller(AbstractUnmarshaller[_ST]):
         """
         super().__init__(t, context, var=var)
         self.fields_by_var = self._fields_by_var()
+        # A TypedDict is a plain dict at runtime, which won't enforce its required keys.
+        self.required = frozenset(getattr(t, "__required_keys__", ()))
 
     def _fields_by_var(self):
         fields_by_var = {}
@@ -1066,4 +1068,7 @@ class StructuredTypeUnmarshaller(AbstractUnmarshaller[_ST]):
         decoded = serdes.load(val)
         fields = self.fields_by_var
         kwargs = {f: fields[f](v) for f, v in serdes.iteritems(decoded) if f in fields}
+        if not self.required <= kwargs.keys():
+            missing = sorted(self.required - kwargs.keys())
+            raise TypeError(f"{self.t!r} is missing required keys: {missing!r}")
         return self.t(**kwargs)
